@@ -25,6 +25,10 @@ MANIFEST = {
 }
 
 
+# proof modules about the specification, checked by tlapm on every run (started by the driver next to leg A)
+TLAPS = [("ProcessProofs.tla", ["Process.tla"])]
+
+
 def leg_a(ctx):
     return pc.LEG_A_PROCESS + [pc.neg("mass_one_flux", "Inv_MassBal"), pc.neg("comp_next_mass", "Inv_CompBal"),
                                pc.neg("time_shift", "Inv_TimeGrid"), pc.neg("no_pop", "Inv_Len,Inv_MassBal")]
@@ -39,7 +43,6 @@ def run(ctx, pool):
         stats["outcomes"]["coarse_" + k] = v
     res = core.validate_traces(None, ctx, tw, pool, "Trace_Process.tla", "Trace_Process_C01.cfg")
     res = pc.finish(res, tw, stats, CLAUSES, pc.RULE)
-    core.attach_tlaps(ctx, res, [("ProcessProofs.tla", ["Process.tla"])])
     return res
 
 
